@@ -605,15 +605,20 @@ __find_zrng(const struct zif_s z[static 1U], int32_t t, int min, int max)
 	trno = __find_trno(z, t, min, max);
 	res.prev = zif_trans(z, trno);
 	if (UNLIKELY(trno <= 0 && t < res.prev)) {
+		/* before the first transition the first type is in force */
 		res.trno = 0U;
-		res.prev = INT_MIN;
-		/* assume the first offset has always been there */
 		res.next = res.prev;
+		res.prev = INT_MIN;
+		res.offs = z->tda[0U].offs;
+		return res;
 	} else if (UNLIKELY(trno < 0)) {
-		/* special case where no transitions are recorded */
+		/* before the first transition, or no transitions at all,
+		 * the first type is in force */
 		res.trno = 0U;
 		res.prev = INT_MIN;
-		res.next = INT_MAX;
+		res.next = zif_ntrans(z) ? zif_trans(z, 0) : INT_MAX;
+		res.offs = z->tda[0U].offs;
+		return res;
 	} else {
 		res.trno = (uint8_t)trno;
 		if (LIKELY(trno + 1U < zif_ntrans(z))) {
@@ -660,7 +665,8 @@ __offs(struct zif_s z[static 1U], int32_t t)
 		min = 0;
 		max = zif_ntrans(z);
 	} else if (t >= z->cache.next) {
-		min = z->cache.trno + 1;
+		/* the cached range may be the one before transition 0 */
+		min = z->cache.prev > INT_MIN ? z->cache.trno + 1 : 0;
 		max = zif_ntrans(z);
 	} else if (t < z->cache.prev) {
 		max = z->cache.trno;
